@@ -166,6 +166,10 @@ func (o *opRun) answer(pk *parked, rank int) parkedResult {
 			m.Record = &recpb.Record{Key: req.GetKey(), Value: []byte("not a key")}
 		case sp.val == "mis":
 			m.Record = &recpb.Record{Key: []byte("/v/other"), Value: []byte("9:ok")}
+		case sp.val == "mis2":
+			// a well-formed answer to a different question: envelope and record agree on another key
+			m.Key = []byte("/v/other")
+			m.Record = &recpb.Record{Key: []byte("/v/other"), Value: []byte("9:ok")}
 		case sp.val == "nil":
 			m.Record = &recpb.Record{Key: req.GetKey()}
 		case sp.val != "-" && sp.val != "":
@@ -376,6 +380,55 @@ func runOp(c *vu.Case) {
 		}
 	}
 	ctx, cancel := context.WithCancel(context.Background())
+	// the final state of every peer the lookup learned, from the published lookup events: the lookup's result is the K
+	// nearest of those that did not fail (what a Provide hands its ADD_PROVIDERs to is otherwise not visible)
+	var evMu sync.Mutex
+	evState := map[int]string{}
+	evTerminated := ""
+	if a["kind"] == "provide" {
+		var events <-chan *LookupEvent
+		// the registration lives on a context of its own that is cancelled at the end (its helper goroutine waits for
+		// that); the operation's context carries the registration but not the cancellation: it is deliberately never
+		// cancelled, so that whatever the operation leaves blocked shows up
+		regCtx, regCancel := context.WithCancel(context.Background())
+		defer regCancel()
+		regCtx, events = RegisterForLookupEvents(regCtx)
+		cancel()
+		ctx, cancel = context.WithCancel(context.WithoutCancel(regCtx))
+		evQuit := make(chan struct{})
+		defer close(evQuit)
+		go func() {
+			for {
+				var ev *LookupEvent
+				select {
+				case ev = <-events:
+				case <-evQuit:
+					return
+				}
+				if ev == nil {
+					return
+				}
+				evMu.Lock()
+				switch {
+				case ev.Response != nil:
+					for _, p := range ev.Response.Heard {
+						if _, known := evState[w.rankOf(p.Peer)]; !known {
+							evState[w.rankOf(p.Peer)] = "h"
+						}
+					}
+					for _, p := range ev.Response.Queried {
+						evState[w.rankOf(p.Peer)] = "q"
+					}
+					for _, p := range ev.Response.Unreachable {
+						evState[w.rankOf(p.Peer)] = "u"
+					}
+				case ev.Terminate != nil:
+					evTerminated = ev.Terminate.Reason.String()
+				}
+				evMu.Unlock()
+			}
+		}()
+	}
 	// local data
 	switch {
 	case strings.HasPrefix(a["local"], "r") || a["local"] == "bad":
@@ -385,6 +438,15 @@ func runOp(c *vu.Case) {
 		for _, r := range parseInts(a["local"][1:], ".") {
 			_ = w.d.providerStore.AddProvider(ctx, keyCid.Hash(), peer.AddrInfo{ID: w.peerOf(r)})
 		}
+	}
+	// pre=cancel: the caller's context has already ended when the call is made; pre=closed: the node has been closed
+	// (the caller's context is alive). The call must still return, with its result channel closed.
+	switch a["pre"] {
+	case "cancel":
+		cancel()
+	case "closed":
+		_ = w.d.Close()
+		settle()
 	}
 	res := &opResult{closed: true}
 	done := make(chan struct{})
@@ -560,6 +622,26 @@ func runOp(c *vu.Case) {
 			out = fmt.Sprintf("returned=%d closed=%d leak=%d err=%s vals=[%s] provs=[%s] pseq=[%s] peers=%s sent=[%s] recipients=[%s] localfirst=%s localhas=%d", b(res.returned), b(res.closed),
 				leak, errClassOp(res.err), strings.Join(res.vals, ","), strings.Join(res.provs, ","), strings.Join(res.pseq, ","), intList(res.peers), strings.Join(o.sentLog, ","),
 				strings.Join(recips, ","), o.localFirst, lh)
+			if a["kind"] == "provide" {
+				// ranks are distances: the lookup's result is the K smallest ranks that did not fail
+				evMu.Lock()
+				var alive []int
+				for r, st := range evState {
+					if st != "u" && r >= 0 {
+						alive = append(alive, r)
+					}
+				}
+				term := evTerminated
+				evMu.Unlock()
+				sort.Ints(alive)
+				if len(alive) > o.K {
+					alive = alive[:o.K]
+				}
+				if term == "" {
+					term = "-"
+				}
+				out += fmt.Sprintf(" lookupres=%s term=%s", intList(alive), term)
+			}
 		}
 		c.Out = append(c.Out, out)
 	}
@@ -618,7 +700,7 @@ func genOpNetwork(r *vu.RNG, n, K int, faultPct int, withVals, withProvs bool) s
 		}
 		val := "-"
 		if withVals && r.Chance(1, 2) {
-			val = []string{"r1", "r2", "r3", "r5", "bad", "mis", "nil", "r2"}[r.Intn(8)]
+			val = []string{"r1", "r2", "r3", "r5", "bad", "mis", "nil", "r2", "mis2"}[r.Intn(9)]
 		}
 		provs := ""
 		if withProvs && r.Chance(1, 2) {
@@ -766,5 +848,14 @@ func TestVerifC06(t *testing.T) {
 
 func TestVerifC03(t *testing.T) {
 	vu.Run(t, vu.Config{Prop: "C03", QuickN: 1200, ThoroughN: 40000,
-		Gen: func(r *vu.RNG, c *vu.Case) bool { genOpCase(r, c, allOpKinds); return true }, Exec: execOp})
+		Gen: func(r *vu.RNG, c *vu.Case) bool {
+			genOpCase(r, c, allOpKinds)
+			if c.Idx%10 == 9 {
+				// the same operation called with a context that has already ended, or on a node that has been closed
+				pre := []string{"cancel", "closed"}[r.Intn(2)]
+				c.In = []string{c.In[0] + " pre=" + pre, "finish"}
+				c.Tag("pre-" + pre)
+			}
+			return true
+		}, Exec: execOp})
 }
